@@ -857,7 +857,9 @@ def project_sched(w, m=None):
         return None
     buckets = dict(m.buckets)
     buckets['cell'] = m.cell
-    blevel = {b: (bk.level or 'rack') for b, bk in buckets.items()}
+    # (the level a bucket id DECLARES - the text before the first colon - not the
+    # one the loader derived from it)
+    blevel = {b: (b.split(':')[0] if ':' in b else (bk.level or 'rack')) for b, bk in buckets.items()}
     bparent = {b: (bk.parent.name if bk.parent is not None else '') for b, bk in buckets.items()}
     bparent['cell'] = ''
     # the cell bucket is called by the cell name in parent links
